@@ -44,6 +44,10 @@ def apply_fault(toks, op, i, x):
         t.insert(k, STRAY[x - 1])
     elif op == "flip":
         t[k] = FLIP[t[k]]
+    elif op == "dropdefault":
+        del t[k:k + 2]
+    elif op == "rename":
+        t[k] = "Zzz"
     return t
 
 
@@ -57,6 +61,10 @@ def faults(toks):
             yield ("swap", i, 0)
         if toks[i - 1] in FLIP:
             yield ("flip", i, 0)
+        if toks[i - 1] == "=" and i < n and toks[i] != "{":
+            yield ("dropdefault", i, 0)
+        if toks[i - 1][:1].isalpha() or toks[i - 1][:1] == "_":
+            yield ("rename", i, 0)
     for i in range(1, n + 2):
         for x in range(1, len(STRAY) + 1):
             yield ("insert", i, x)
@@ -99,6 +107,48 @@ def regroup(corrupted, text):
     if k != len(corrupted):
         return None
     return lexed, groups
+
+
+def features(tree):
+    """structural features of a case (kinds of declarations / members, templated or not) - for stratified choice"""
+    out = set()
+
+    def walk(x):
+        if isinstance(x, dict):
+            if "k" in x:
+                out.add((x["k"], bool(x.get("tmpl")), bool(x.get("ret", {}).get("pair")) if isinstance(x.get("ret"), dict) else False,
+                         len(x.get("args", [])) if isinstance(x.get("args"), list) else 0))
+            for v in x.values():
+                walk(v)
+        elif isinstance(x, list):
+            for v in x:
+                walk(v)
+    walk(tree)
+    return out
+
+
+def cover(cases_, rng, n):
+    """greedy choice of n cases that covers as many structural features as possible (ties broken randomly)"""
+    pool = list(cases_)
+    rng.shuffle(pool)
+    feats = [features(c["tree"]) for c in pool]
+    chosen, seen = [], set()
+    for _ in range(min(n, len(pool))):
+        best = max(range(len(pool)), key=lambda i: (len(feats[i] - seen), -len(pool[i]["toks"])) if i not in chosen else (-1, 0))
+        chosen.append(best)
+        seen |= feats[best]
+    return [pool[i] for i in chosen]
+
+
+def late_shape(tree):
+    """a namespace holding a class or enum, followed later by a function with >= 2 defaults (late validation errors)"""
+    seen_ns = False
+    for d in tree:
+        if d["k"] == "namespace" and any(x["k"] in ("class", "enum") for x in d["items"]):
+            seen_ns = True
+        if seen_ns and d["k"] == "function" and sum(1 for a in d["args"] if a["hasdef"]) >= 2:
+            return True
+    return False
 
 
 def parse_job(job):
@@ -204,10 +254,13 @@ def main():
     # the fault model's own laws (ASSUME in Corrupt.tla) are evaluated when IfaceTrace is loaded below
     cs, r = cases.simulate(n=40 if thorough else 6, seed=rep.seed, target=6)
     small, r2 = cases.exhaustive("classes", target=3, members=2)
-    small = rng.sample(small, 40 if thorough else 6)
+    small = cover(small, rng, 40 if thorough else 7)
     sigs, r3 = cases.exhaustive("sigs", maxargs=2, target=2, members=1)
-    sigs = rng.sample(sigs, 60 if thorough else 8)
-    bases = [(c["origin"], c["toks"]) for c in cs + small + sigs]
+    sigs = cover(sigs, rng, 60 if thorough else 8)
+    nsu, r4 = cases.exhaustive("ns", target=4, members=1)
+    late = [c for c in nsu if late_shape(c["tree"])]
+    late = rng.sample(late, min(len(late), 30 if thorough else 4))
+    bases = [(c["origin"], c["toks"]) for c in cs + small + sigs + late]
     for f in sorted(glob.glob(os.path.join(common.REPO, "tests", "fixtures", "*.i"))):
         with open(f) as fh:
             toks = lexer.lex(fh.read())
@@ -277,10 +330,17 @@ def main():
                 rep.violation(clause, {"one-qualifier-dropped": "QualifierOnTypenameDropped"}.get(cls, cls),
                               {"id": v[1], "text": safe_text(ob["toks"]), "toks": ob["toks"]})
     # file effects of failing runs: all rejected truncations + a sample of the rest (API), smaller sample (scripts)
-    gjobs = []
+    # every corrupted input the parser accepted goes through both generators (a validation error may still come,
+    # after part of the output has been produced), plus a sample of the rejected ones and the bases themselves
+    gjobs = [(origin, apply_fault(base_of[origin], *f), f) for origin, _t, f in accepted]
+    if not thorough and len(gjobs) > 900:
+        keepf = [g for g in gjobs if g[2][0] in ("dropdefault", "rename")]
+        rest = [g for g in gjobs if g[2][0] not in ("dropdefault", "rename")]
+        gjobs = keepf + rng.sample(rest, 900 - min(900, len(keepf)))
+    gjobs += [(origin, toks, ("none", 0, 0)) for origin, toks in bases]
     for origin, toks in bases:
         fl = [f for f in faults(toks)]
-        pick = rng.sample(fl, min(len(fl), 60 if thorough else 12))
+        pick = rng.sample(fl, min(len(fl), 30 if thorough else 4))
         gjobs += [(origin, apply_fault(toks, *f), f) for f in pick]
     gres = common.pmap(generator_job, gjobs, chunksize=4)
     gen_outcomes = {}
